@@ -43,6 +43,10 @@ func envOr(k, d string) string {
 func repoDir() string  { return envOr("VERIF_REPO", "/repo") }
 func verifDir() string { return envOr("VERIF_DIR", "/verif") }
 
+// outDir: where replay files and evidence are written (VERIF_OUT lets a self-test run against a
+// scratch copy of the repository without overwriting the evidence of the real tree).
+func outDir() string { return envOr("VERIF_OUT", verifDir()) }
+
 func cmdRun(args []string) {
 	fs := flag.NewFlagSet("run", flag.ExitOnError)
 	pkg := fs.String("pkg", "", "package import path (relative to module allowed)")
